@@ -1067,7 +1067,8 @@ class Terminal:
         assert size is not None
         assert offset is not None
 
-        index = start - self.fmmu_used[start::-1].index(None) - 1
+        start = min(start, len(self.fmmu_used) - 1)
+        index = start - self.fmmu_used[start::-1].index(None)
 
         self.fmmu_used[index] = logical
         try:
